@@ -31,7 +31,7 @@ RULE = (
 EXHAUSTIVE_PART = "per base configuration: all fault points of the classes body-exception, unserializable, unencodable, k-th filesystem call and LINE failpoints in the loading half and in the save sequence"
 ASSUMPTIONS = ["faults occur only at the enumerated points", "MemoryFS/NativeOSFS subclasses behave like their parents"]
 MONITORS = ["fault_free_control", "body_exception", "unserializable", "unencodable", "fs_call_fault", "line_failpoint", "line_failpoint_loading"]
-REQUIRED = ["noop_body_with_backup_requested", "body_Chained", "stale_backup_of_same_size_present", "output_is_input_under_another_spelling", "body_UnicodeEncodeError", "backup_after_inplace_chart_edit", "body_KeyboardInterrupt", "body_SystemExit", "body_CancelMutation", "body_CancelSub", "codec_error_handler_given_by_the_caller", "unencodable_character_on_a_65536_seam_of_the_text", "strict_run_after_runs_with_a_lenient_error_handler", "body_StopIteration", "body_GeneratorExit",
+REQUIRED = ["noop_body_with_backup_requested", "input_rewritten_while_the_block_was_open", "body_Chained", "stale_backup_of_same_size_present", "output_is_input_under_another_spelling", "body_UnicodeEncodeError", "backup_after_inplace_chart_edit", "body_KeyboardInterrupt", "body_SystemExit", "body_CancelMutation", "body_CancelSub", "codec_error_handler_given_by_the_caller", "unencodable_character_on_a_65536_seam_of_the_text", "strict_run_after_runs_with_a_lenient_error_handler", "body_StopIteration", "body_GeneratorExit",
             "unencodable_utf-8", "unencodable_cp1252", "unencodable_cp932", "unencodable_cp949", "fault_open_w_backup",
             "unencodable_object_in_key", "unencodable_object_in_chartkey", "unencodable_object_in_extradata", "unencodable_object_in_notes",
             "fault_open_w_output", "fault_write_backup", "fault_write_output", "fault_close", "partial_write",
@@ -84,6 +84,11 @@ def cases(ctx):
     # ... and the strict default again afterwards, in the same process and the same encodings
     configs = configs + [dict(c, again=True) for c in configs if c["size"] == 5 and c["enc"] in ("cp1252", "cp932")
                          and c["output"] is False and "body" not in c and "errors" not in c and c["fs"] == "memory"]
+    # the input file is rewritten by someone else while the block is open (another program, a nested mutate of the same
+    # file): a backup that was asked for must still hold the simfile the block STARTED from
+    configs = configs + [dict(c, body="rewrites_input") for c in configs if c["backup"] and c["size"] == 5 and c["enc"] == "utf-8"
+                         and c["output"] in (False, True) and "body" not in c and "errors" not in c
+                         and "charts_only" not in c and "again" not in c]
     for i, c in enumerate(configs):
         if ctx.mine(i):
             yield {"base": c, "failpoints": "errors" not in c and "again" not in c, "deep": ctx.tier == "thorough"}
@@ -251,6 +256,10 @@ def run(base, fault, want_lines=False):
                 snaps["S0"] = copy.deepcopy(s)
                 snaps["n_props"] = len(s)
                 snaps["n_charts"] = len(s.charts)
+                if base.get("body") == "rewrites_input" and (fault is None or fault["class"] in ("fs", "line")):
+                    data = b"#SUBTITLE:rewritten while the block was open;\n" + data
+                    world.write("in." + ext, data)
+                    before = world.snapshot()
                 if base.get("body") == "noop" and (fault is None or fault["class"] in ("fs", "line")):
                     s.title = s.title  # a body that makes no net change
                 elif fault is None or fault["class"] in ("fs", "line"):
@@ -458,6 +467,8 @@ def judge(ctx, base, fault, r, cls, one):
                        f"{fc}:stale-backup-left-in-place", **{"base": base, "fault": fault})
     if base["output"] == "alias":
         ctx.feat("output_is_input_under_another_spelling")
+    if base.get("body") == "rewrites_input" and fc in ("fs", "line"):
+        ctx.feat("input_rewritten_while_the_block_was_open")
     if bak and before.get(bak) != after.get(bak) and S0 is not None and len(S0.charts) > 0:
         ctx.feat("backup_after_inplace_chart_edit")
     detail = {"base": base, "fault": fault, "changed": changed, "raised": repr(r["raised"]), "trace": [[t[0], t[1], str(t[2])] for t in r["trace"] if t[0] is not None]}
